@@ -147,7 +147,8 @@ func (h *HTTP) RoundTrip(req *http.Request) (*http.Response, error) {
 		return finish(&http.Response{StatusCode: 503, Status: "503 Service Unavailable", Header: http.Header{"Content-Type": []string{"text/plain"}},
 			Body: io.NopCloser(strings.NewReader("sim: unavailable")), Request: req, ProtoMajor: 1, ProtoMinor: 1}, nil)
 	}
-	if h.F.Hit(HTTPDelay, site) {
+	holding := h.S.Holding() // no waiting in virtual time for a caller that holds a registered mutex
+	if !holding && h.F.Hit(HTTPDelay, site) {
 		time.Sleep(time.Duration(50+h.S.D.Decide("http.delay-ms "+site, 2000)) * time.Millisecond)
 	}
 	if h.TamperRequest != nil && body != nil {
@@ -183,7 +184,7 @@ func (h *HTTP) RoundTrip(req *http.Request) (*http.Response, error) {
 		rec.Status = resp.StatusCode
 		return finish(nil, errors.New("sim: connection reset while reading the response"))
 	}
-	if h.F.Hit(HTTPSlow, site) {
+	if !holding && h.F.Hit(HTTPSlow, site) {
 		rec.Fault = HTTPSlow
 		select {
 		case <-time.After(2 * time.Minute):
